@@ -8,25 +8,17 @@
 pub uninterp spec fn f64_bits(f: f64) -> u64;
 pub uninterp spec fn f32_bits(f: f32) -> u32;
 
-pub assume_specification [f64::to_bits](f: f64) -> (r: u64)
-    ensures r == f64_bits(f);
+pub assume_specification [f64::to_bits](f: f64) -> (r: u64) ensures r == f64_bits(f);
 
-pub assume_specification [f64::is_nan](f: f64) -> (r: bool)
-    ensures r == f64_is_nan_bits(f64_bits(f));
+pub assume_specification [f64::is_nan](f: f64) -> (r: bool) ensures r == f64_is_nan_bits(f64_bits(f));
 
-pub assume_specification [f64::is_infinite](f: f64) -> (r: bool)
-    ensures r == f64_is_inf_bits(f64_bits(f));
+pub assume_specification [f64::is_infinite](f: f64) -> (r: bool) ensures r == f64_is_inf_bits(f64_bits(f));
 
-pub assume_specification [f32::to_bits](f: f32) -> (r: u32)
-    ensures r == f32_bits(f);
+pub assume_specification [f32::to_bits](f: f32) -> (r: u32) ensures r == f32_bits(f);
 
-pub assume_specification [f32::is_nan](f: f32) -> (r: bool)
-    ensures r == f32_is_nan_bits(f32_bits(f));
+pub assume_specification [f32::is_nan](f: f32) -> (r: bool) ensures r == f32_is_nan_bits(f32_bits(f));
 
-pub assume_specification [f32::is_infinite](f: f32) -> (r: bool)
-    ensures r == f32_is_inf_bits(f32_bits(f));
+pub assume_specification [f32::is_infinite](f: f32) -> (r: bool) ensures r == f32_is_inf_bits(f32_bits(f));
 
 /// `i128::abs` overflows (panics in debug, wraps in release) exactly for i128::MIN
-pub assume_specification [i128::abs](x: i128) -> (r: i128)
-    requires x > i128::MIN
-    ensures r as int == abs_int(x as int);
+pub assume_specification [i128::abs](x: i128) -> (r: i128) requires x > i128::MIN ensures r as int == abs_int(x as int);
